@@ -2,7 +2,10 @@ module verif/real
 
 go 1.21
 
-require github.com/hslam/rpc v0.0.0
+require (
+	github.com/hslam/rpc v0.0.0
+	github.com/hslam/socket v0.0.4-0.20230517140040-6048f4a0c39b
+)
 
 require (
 	github.com/hslam/atomic v1.0.0 // indirect
@@ -16,7 +19,6 @@ require (
 	github.com/hslam/reuse v0.0.0-20230219162114-9a3f8d1f9550 // indirect
 	github.com/hslam/scheduler v0.0.0-20211028175315-641598104976 // indirect
 	github.com/hslam/sendfile v1.0.1 // indirect
-	github.com/hslam/socket v0.0.4-0.20230517140040-6048f4a0c39b // indirect
 	github.com/hslam/splice v1.0.3 // indirect
 	github.com/hslam/websocket v0.1.1-0.20230517135840-2d09ff61bbdb // indirect
 	github.com/hslam/writer v1.0.1-0.20230517134517-171bf4321917 // indirect
